@@ -992,8 +992,10 @@ def purity(M, cls, path, st, acc, outcomes, only_items=False):
     -> number of real calls."""
     n = 0
     for op in M.OPS:
-        if only_items and op[0] != "item":
+        if only_items == "items" and op[0] != "item":
             continue
+        if only_items == "base" and op[0] != "item" and base_of(M, op) != op:
+            continue  # simplest spelling / value / item form of each mutator only
         expect, nst = model_apply(M, st, op)
         if expect == "skip":
             continue
@@ -1301,8 +1303,8 @@ def explore(ctx, M, plans, pair_depth, purity_all_depth, purity_item_depth):
         e0 = exps[0]
         if d <= max(purity_all_depth, purity_item_depth) and d < e0["depth"]:
             lv = e0["level"]
-            only_items = d > purity_all_depth
-            size = 1 if not only_items else 16
+            only_items = False if d <= 1 else ("base" if d <= purity_all_depth else "items")
+            size = 1 if not only_items else (4 if only_items == "base" else 16)
             for i in range(0, len(lv), size):
                 items.append(("U", e0["cls"], lv[i:i + size], only_items))
                 owners.append("pure")
@@ -1372,8 +1374,8 @@ def run(ctx):
         "dicts with/without framing tags) are applied under every spelling; every mutator variant is executed on a "
         "fresh real object and the real state is read back and compared; plus the full equality matrix over all "
         "states of depth <= 2; plus the purity pass: on one object all observers, then a mutator (also on a pickled "
-        "copy), then all observers again, compared with a fresh object (every mutator on states of depth <= 1 "
-        "(thorough 2), nested-item mutators one level deeper). Mutators include set/replace/del on a group item "
+        "copy), then all observers again, compared with a fresh object (every mutator variant on states of depth <= 1, "
+        "thorough: the simplest variant of every mutator on depth 2; nested-item mutators one level deeper). Mutators include set/replace/del on a group item "
         "reached through get_group_by_index / get_group_list / get_group_by_tag. States reached by writing an "
         "int/float/enum value or the separator string are observed but not expanded. On the deepest level the equality observers use one derived second operand per kind "
         "instead of one per tag. non-trivial = state holding a repeating group with at least two items"
